@@ -160,7 +160,7 @@ def make_image(rng, cls, shp, C, dtype, mask_kind, constant=None):
         px[rng.integers(0, C)] = 2.5
     im = mi.Image(px) if cls == "Image" else mi.MaskedImage(px, mask=gen.mask(rng, shp, mask_kind))
     for g in range(int(rng.integers(0, 3))):
-        s = gen.shape(rng, None, d=2, n=int(rng.integers(3, 7)))
+        s = gen.shape(rng, None, d=len(shp), n=int(rng.integers(3, 7)))
         s.points = rng.uniform(0, 1, s.points.shape) * (np.array(shp) - 1)
         im.landmarks["g%d" % g] = s
     return im
@@ -190,6 +190,8 @@ def w_features(ctx, rng, i):
         dtype = np.float64
     else:
         shp = (int(rng.integers(3, 65)), int(rng.integers(3, 65)))
+    if fname in ("gradient", "gaussian_filter", "no_op") and rng.random() < 0.25:
+        shp = tuple(int(v) for v in rng.integers(3, 12, 3))      # these features are n-dimensional
     im = make_image(rng, cls, shp, C, dtype, mk)
     if fname == "gaussian_filter":
         opts = {"sigma": float(rng.uniform(0.3, 3.0))}
@@ -204,7 +206,7 @@ def w_features(ctx, rng, i):
     if fname not in ("compose",):
         (getattr(mf, fname)(im.pixels, *( [opts["sigma"]] if fname == "gaussian_filter" else []), **({} if fname == "gaussian_filter" else opts)))
     # internal use: the Gaussian pyramid calls gaussian_filter on images
-    if i % 23 == 0:
+    if i % 23 == 0 and len(shp) == 2:
         list(im.gaussian_pyramid(n_levels=2, downscale=2))
     ctx.count_case((fname, cls, mk if cls == "MaskedImage" else "-", C, np.dtype(dtype).name, str(sorted(opts))), nontrivial=im.has_landmarks or (cls == "MaskedImage" and mk != "all"),
                    sample={"feature": fname, "cls": cls, "mask": mk, "shape": list(shp), "channels": C, "options": opts} if i < 6 else None)
